@@ -167,6 +167,38 @@ def scan_shared_containers(root):
     return sorted(set(found))
 
 
+def scan_defaults_frozen_in_objects(root):
+    """`self.x = MasterConfig.default_ns` (directly or through a local that was read from MasterConfig in the same function) freezes
+    the process-wide default into an object at that moment; later calls on the object then ignore the default in force"""
+    found = []
+    pkg = os.path.join(root, 'pytrs')
+    for dirpath, _, files in os.walk(pkg):
+        if 'interface_tools' in dirpath:
+            continue
+        for fn in files:
+            if not fn.endswith('.py'):
+                continue
+            path = os.path.join(dirpath, fn)
+            rel = os.path.relpath(path, root)
+            tree = ast.parse(open(path, encoding='utf-8').read())
+            for cls in [n for n in ast.walk(tree) if isinstance(n, ast.ClassDef)]:
+                if cls.name in ('MasterConfig', 'Config'):
+                    continue            # the configuration classes themselves hold settings by design
+                for f in [n for n in ast.walk(cls) if isinstance(n, (ast.FunctionDef, ast.AsyncFunctionDef))]:
+                    tainted = set()
+                    for n in ast.walk(f):
+                        if isinstance(n, ast.Assign):
+                            src = ast.unparse(n.value)
+                            from_mc = ('MasterConfig.default_' in src or 'MC.default_' in src
+                                       or any(isinstance(x, ast.Name) and x.id in tainted for x in ast.walk(n.value)))
+                            for t in n.targets:
+                                if isinstance(t, ast.Name) and ('MasterConfig.default_' in src or 'MC.default_' in src):
+                                    tainted.add(t.id)
+                                if from_mc and isinstance(t, ast.Attribute) and isinstance(t.value, ast.Name) and t.value.id == 'self':
+                                    found.append((rel, f'{cls.name}.{f.name}', t.attr))
+    return sorted(set(found))
+
+
 def scan_result():
     import pytrs
     root = os.path.dirname(os.path.dirname(os.path.abspath(pytrs.__file__)))
@@ -180,7 +212,7 @@ def scan_ok():
     extra_captured = [c for c in captured if c not in ALLOWED_DEFINITION_TIME_DEFAULTS]
     import pytrs
     root = os.path.dirname(os.path.dirname(os.path.abspath(pytrs.__file__)))
-    return (extra_stores, memos, mutables, extra_captured, scan_shared_containers(root))
+    return (extra_stores, memos, mutables, extra_captured, scan_shared_containers(root), scan_defaults_frozen_in_objects(root))
 
 
 scan_ok.__pyvc_native__ = True
@@ -192,13 +224,14 @@ def _scan_unit():
                          ('no_memoising_decorator', lambda result: len(result[1]) == 0),
                          ('no_mutable_default_argument', lambda result: len(result[2]) == 0),
                          ('no_default_captured_from_MasterConfig_at_definition_time', lambda result: len(result[3]) == 0),
-                         ('no_in_place_mutation_of_a_module_or_class_level_container', lambda result: len(result[4]) == 0)],
+                         ('no_in_place_mutation_of_a_module_or_class_level_container', lambda result: len(result[4]) == 0),
+                         ('no_MasterConfig_default_frozen_into_an_object', lambda result: len(result[5]) == 0)],
                 replay=('props.c15:replay_scan', {}))
 
 
 def replay_scan(model):
     r = scan_ok()
-    return {'confirmed': any(len(x) > 0 for x in r), 'detail': f"stores={r[0]} memo={r[1]} mutable_defaults={r[2]} captured={r[3]} shared_containers_mutated={r[4]}"}
+    return {'confirmed': any(len(x) > 0 for x in r), 'detail': f"stores={r[0]} memo={r[1]} mutable_defaults={r[2]} captured={r[3]} shared_containers_mutated={r[4]} defaults_frozen={r[5]}"}
 
 
 # ---- the TRS cache --------------------------------------------------------------------------------------------------------------
@@ -328,6 +361,9 @@ def probe():
     out['desc'] = [(t.trs, t.desc, t.lots, t.qqs, t.w_flags, t.e_flags, t.twp, t.rge, t.sec_num) for t in d.tracts] + [d.w_flags, d.e_flags, d.pp_desc]
     o = PLSSDesc('Township lS4 North, Range 97 West, Section 14: NE/4; T1o4N-R9|W Sec 1: ALL')     # OCR look-alikes, ocr_scrub off
     out['ocr_off'] = [(t.trs, t.desc) for t in o.tracts] + [o.e_flags, o.pp_desc]
+    kept = globals().get('KEEP') or [Tract('NE/4'), PLSSDesc('T154-R97 Sec 14: NE/4', wait_to_parse=True)]      # objects that lived through the history
+    kept[0].set_twprgesec(154, 97, 14)
+    out['kept'] = [kept[0].trs, [x.trs for x in kept[1].parse(commit=False)]]
     t = Tract('N/2 of Lot 4, NE', trs='154n97w14', parse_qq=True, config='clean_qq')
     out['tract'] = [t.trs, t.lots, t.qqs, t.twp_num, t.rge_ew]
     out['trs'] = [(x.trs, x.twp, x.twp_num, x.rge_ew, x.sec_num, x.is_error(), x.is_undef()) for x in
@@ -346,7 +382,7 @@ HISTORIES = {
     'cache pre-warmed': "[TRS(s) for s in ('154n97w14','154n97w15','7n2w01','XXXz97w01','___z___z__','garbage')]",
     'returned dicts mutated': "d1 = pytrs.trs_to_dict('154n97w14'); d1['twp'] = 'HACK'; d1['twp_num'] = -1; d1.clear(); d2 = TRS.trs_to_dict(TRS('154n97w14')); d2['sec_num'] = 99; x = TRS('154n97w14'); dd = TRS.trs_to_dict('154n97w14'); dd['trs'] = 'zzz'; l = PLSSDesc('T154-R97 Sec 14: NE/4').tracts.tracts_to_dict('trs','qqs'); l[0]['qqs'] = ['HACK']; f = pytrs.find_twprge('T154N-R97W'); f.append('x')",
     'returned lists mutated': "d = PLSSDesc('T154-R97 Sec 14: NE/4, Lots 1 - 2', config='parse_qq'); d.tracts[0].to_list('lots')[0].append('L99'); d.tracts.tracts_to_list('w_flags')[0][0].append('HACK'); pytrs.find_sec('Sec 1 - 3').append('99')",
-    'objects created under other defaults': "MasterConfig.default_ns='s'; a = PLSSDesc('T154-R97 Sec 14: NE/4', wait_to_parse=True); b = Tract('NE/4', trs='154n97w14'); MasterConfig.default_ns='n'; a.parse(); b.parse()",
+    'objects created under other defaults': "MasterConfig.default_ns='s'; MasterConfig.default_ew='e'; a = PLSSDesc('T154-R97 Sec 14: NE/4', wait_to_parse=True); b = Tract('NE/4'); KEEP = [b, a]; MasterConfig.default_ns='n'; MasterConfig.default_ew='w'",
     'counter advanced': "[Tract('x') for _ in range(50)]",
     'optional modes used before': "PLSSDesc('Township lS4 North, Range 97 West, Section 14: NE/4', config='ocr_scrub'); PLSSDesc('T154N-R97W Sec 14 NE/4, Sec 15: W/2', config='segment,sec_colon_required,sec_within,clean_qq,parse_qq,qq_depth.3'); Tract('Lot 1(40.0), NE', config='clean_qq,suppress_lot_divs,break_halves', parse_qq=True)",
 }
